@@ -162,6 +162,9 @@ def _build_harness(race=False):
         cmd.append("-modfile=" + alt)
     if race:
         cmd.insert(2, "-race")
+    if os.environ.get("VERIF_COVER"):
+        # coverage of the library reached by the conformance runs (diagnostic only: bin/cover)
+        cmd[2:2] = ["-cover", "-covermode=atomic", "-coverpkg=verif/harness,github.com/gebn/bmc/..."]
     cmd.append(".")
     p = subprocess.run(cmd, cwd=HARNESS, env=GOENV, stdout=subprocess.PIPE, stderr=subprocess.STDOUT, text=True)
     if p.returncode != 0:
